@@ -837,3 +837,104 @@ def rule_record_written(ctx):
             r.ok(q, sample={"writer": q, "record stores": len(stores), "every path after a change": "stores or hands on the record"})
     r.floor(n, 5, "routines of tn1d/core.py that store the record themselves")
     return r
+
+
+def rule_forked_record_object(ctx):
+    r = RuleResult(
+        "forked-record-object",
+        "a routine that forks the caller's record (`info = info.copy()`) does so because it is about to move the orthogonality centre of a "
+        "*copy* that the caller never sees. The fork and the choice of the working object are made by separate tests: there must be no "
+        "combination of the flags under which the record is forked while the working object is the receiver itself — the receiver would be "
+        "re-gauged in place while the caller's record keeps naming the old centre (boolean satisfiability over the atoms of the two tests)",
+    )
+    m = ctx.prog.modules.get("quimb.tensor.tn1d.core")
+    if m is None:
+        raise AnalysisError("forked-record-object: quimb.tensor.tn1d.core not found")
+    import itertools as _it
+
+    def atoms_of(e, acc):
+        if isinstance(e, ast.BoolOp):
+            for v in e.values:
+                atoms_of(v, acc)
+        elif isinstance(e, ast.UnaryOp) and isinstance(e.op, ast.Not):
+            atoms_of(e.operand, acc)
+        else:
+            acc.setdefault(ast.dump(e), e)
+
+    def ev(e, val):
+        if isinstance(e, ast.BoolOp):
+            vs = [ev(v, val) for v in e.values]
+            return all(vs) if isinstance(e.op, ast.And) else any(vs)
+        if isinstance(e, ast.UnaryOp) and isinstance(e.op, ast.Not):
+            return not ev(e.operand, val)
+        return val[ast.dump(e)]
+
+    n = 0
+    for f in m.all_functions:
+        if f.parent is not None or f.is_alias or isinstance(f.node, ast.Lambda) or "info" not in f.params:
+            continue
+        # (condition, negated?) chains for a node: the If tests that enclose it
+        def cond_of(node):
+            conds = []
+            def walk(stmts, acc):
+                for st in stmts:
+                    if st is node or any(x is node for x in ast.walk(st)):
+                        if isinstance(st, ast.If):
+                            if any(x is node for b in st.body for x in ast.walk(b)):
+                                return walk(st.body, acc + [(st.test, False)])
+                            if any(x is node for b in st.orelse for x in ast.walk(b)):
+                                return walk(st.orelse, acc + [(st.test, True)])
+                        for fld in ("body", "orelse", "finalbody"):
+                            sub = getattr(st, fld, None)
+                            if isinstance(sub, list) and not isinstance(st, ast.If) and any(any(x is node for x in ast.walk(b)) for b in sub if isinstance(b, ast.stmt)):
+                                return walk(sub, acc)
+                        return acc
+                return acc
+            return walk(f.node.body, conds)
+
+        forks = [a for a in ast.walk(f.node) if isinstance(a, ast.Assign) and len(a.targets) == 1 and isinstance(a.targets[0], ast.Name) and a.targets[0].id == "info"
+                 and isinstance(a.value, ast.Call) and isinstance(a.value.func, ast.Attribute) and a.value.func.attr == "copy" and isinstance(a.value.func.value, ast.Name) and a.value.func.value.id == "info"]
+        if not forks:
+            continue
+        # working object: W = self if C else self.copy()   or   if C: W = self  else: W = self.copy()
+        self_conds = []   # list of (W, [ (test, negated) ... ]) under which W is the receiver
+        for a in ast.walk(f.node):
+            if isinstance(a, ast.Assign) and len(a.targets) == 1 and isinstance(a.targets[0], ast.Name):
+                W = a.targets[0].id
+                if isinstance(a.value, ast.IfExp) and isinstance(a.value.body, ast.Name) and a.value.body.id == "self":
+                    self_conds.append((W, cond_of(a) + [(a.value.test, False)]))
+                elif isinstance(a.value, ast.IfExp) and isinstance(a.value.orelse, ast.Name) and a.value.orelse.id == "self":
+                    self_conds.append((W, cond_of(a) + [(a.value.test, True)]))
+                elif isinstance(a.value, ast.Name) and a.value.id == "self" and cond_of(a):
+                    self_conds.append((W, cond_of(a)))
+        if not self_conds:
+            continue
+        for fk in forks:
+            fc = cond_of(fk)
+            for W, sc in self_conds:
+                # is the forked record handed to an in-place call on W afterwards?
+                used = [c for c in ast.walk(f.node) if isinstance(c, ast.Call) and isinstance(c.func, ast.Attribute) and isinstance(c.func.value, ast.Name) and c.func.value.id == W
+                        and c.func.attr.endswith("_") and any(k.arg == "info" for k in c.keywords) and c.lineno > fk.lineno]
+                if not used:
+                    continue
+                n += 1
+                acc = {}
+                for t, _ in fc + sc:
+                    atoms_of(t, acc)
+                keys = list(acc)
+                sat = None
+                if len(keys) <= 8:
+                    for bits in _it.product((False, True), repeat=len(keys)):
+                        val = dict(zip(keys, bits))
+                        if all(ev(t, val) != neg for t, neg in fc) and all(ev(t, val) != neg for t, neg in sc):
+                            sat = {src_of(acc[k])[:30]: v for k, v in val.items()}
+                            break
+                q = f"{f.qualname}[{W}]"
+                if sat is not None:
+                    r.bad(Finding("forked-record-object", f.qualname,
+                                  f"with {sat} the record is forked (line {fk.lineno}) while `{W}` is the receiver itself, and `{src_of(used[0])[:50]}` then moves the receiver's centre with the "
+                                  "private record: the caller's record keeps naming the old centre", where=f"{m.relpath}:{fk.lineno}", operand=W))
+                else:
+                    r.ok(q, sample={"function": f.qualname, "fork": f"line {fk.lineno}", "working object": W, "fork and receiver-in-place": "mutually exclusive"})
+    r.floor(n, 1, "routines that fork the record and choose a working object by separate tests")
+    return r
